@@ -674,7 +674,7 @@ def gen_others(r, n):
                 d7 = r.randint(1000000, 9999998)
                 out.append(('phone', r.choice(['00 44 %d %d' % (a % 900 + 100, d7), '0049%d %d' % (a % 900 + 100, d7 * 10 + 8),
                                                '00420 %d %d %d' % (a % 900 + 100, b % 900 + 100, c % 900 + 100),
-                                               '0044 20 %d %d' % (c, c + 1), '%d-%d-%d x%d' % (a, b, c, r.randint(10, 9999))])))
+                                               '0044 20 %d %d' % (c, c + 1), '%d-%d-%d x%d' % (a, b, c, r.randint(100, 9999))])))
             else:
                 out.append(('phone', lay % (a, b, c)))
     return out
